@@ -6,6 +6,7 @@ import (
 	"flag"
 	"fmt"
 	"os"
+	"regexp"
 	"runtime/debug"
 	"sort"
 	"strings"
@@ -162,6 +163,8 @@ func evalOn(id, tier, verif string, fn ruleFn, P *Program, loadVariant func() (*
 	return c
 }
 
+var instanceNo = regexp.MustCompile(`#\d+`)
+
 func runCheck(id, tier, repo, verif string, fn ruleFn) (code int) {
 	whole := tier == "thorough" && needsWhole[id]
 	P, err := LoadProgram(repo, whole, "")
@@ -205,6 +208,13 @@ func runCheck(id, tier, repo, verif string, fn ruleFn) (code int) {
 			// development aid: also inline the helpers the reference tree already has
 			modes = append(modes, nfMode{1, pinned, "all non-anchor helpers", true}, nfMode{4, pinned, "all non-anchor helpers", true})
 		}
+		type nfResult struct {
+			c    *Check
+			what string
+			log  []string
+		}
+		var evaluated []nfResult
+		acquitted := false
 		for _, md := range modes {
 			k, pinned := md.k, md.pinned
 			nfGuards = md.guards
@@ -238,7 +248,9 @@ func runCheck(id, tier, repo, verif string, fn ruleFn) (code int) {
 					fmt.Println("  NF unlisted:", kk)
 				}
 			}
+			evaluated = append(evaluated, nfResult{c2, fmt.Sprintf("k=%d guards=%v", k, md.guards), log})
 			if c2.unlisted() == 0 {
+				acquitted = true
 				c2.extra["normal_form"] = map[string]any{
 					"why": fmt.Sprintf("the plain run reported %d violation(s) (first: %s); the property was decided on the "+
 						"inlined normal form of the tree (%s with at most %d call site(s) inlined at source level, type-checked again)", n, c.firstUnlisted(), md.what, k),
@@ -247,6 +259,80 @@ func runCheck(id, tier, repo, verif string, fn ruleFn) (code int) {
 				c2.Note("decided on the inlined normal form: " + strings.Join(log, "; "))
 				c = c2
 				break
+			}
+		}
+		// No single normal form discharges everything, but every normal form is the same program: an obligation that
+		// holds on one of them holds. If no obligation (compared by rule and construct, instance numbers dropped) is
+		// violated on all the forms, each reported violation is an artefact of one form; the form with the fewest
+		// reports is taken and its remaining reports are discharged with a reference to the form on which they hold.
+		if !acquitted && len(evaluated) >= 2 {
+			norm := func(k string) string { return instanceNo.ReplaceAllString(k, "") }
+			count := map[string]int{}
+			for _, ev := range evaluated {
+				seen := map[string]bool{}
+				for _, k := range ev.c.unlistedKeys() {
+					if nk := norm(k); !seen[nk] {
+						seen[nk] = true
+						count[nk]++
+					}
+				}
+			}
+			common := false
+			for _, n := range count {
+				if n == len(evaluated) {
+					common = true
+				}
+			}
+			if !common {
+				best := evaluated[0]
+				for _, ev := range evaluated[1:] {
+					if ev.c.unlisted() < best.c.unlisted() {
+						best = ev
+					}
+				}
+				unl := map[string]bool{}
+				for _, k := range best.c.unlistedKeys() {
+					unl[k] = true
+				}
+				flippable := 0
+				for _, o := range best.c.Obls {
+					if o.Status == "violated" && unl[o.Key] {
+						flippable++
+					}
+				}
+				if flippable != len(unl) {
+					return c.Finish() // a floor or the findings file itself is at fault: nothing to combine
+				}
+				for _, o := range best.c.Obls {
+					if o.Status != "violated" || !unl[o.Key] {
+						continue
+					}
+					holdsOn := ""
+					for _, ev := range evaluated {
+						if ev.c == best.c {
+							continue
+						}
+						still := false
+						for _, k := range ev.c.unlistedKeys() {
+							if norm(k) == norm(o.Key) {
+								still = true
+							}
+						}
+						if !still {
+							holdsOn = ev.what
+							break
+						}
+					}
+					o.Status = "discharged"
+					o.Why = "holds on the normal form " + holdsOn + " of the same tree (on this form the rule reported: " + o.Why + ")"
+				}
+				best.c.extra["normal_form"] = map[string]any{
+					"why": fmt.Sprintf("the plain run reported %d violation(s) (first: %s); no obligation is violated on all %d inlined normal forms of the tree, "+
+						"so each was decided on a form on which it holds", n, c.firstUnlisted(), len(evaluated)),
+					"inlined": best.log,
+				}
+				best.c.Note("decided on the inlined normal forms (combined): " + strings.Join(best.log, "; "))
+				c = best.c
 			}
 		}
 	}
